@@ -16,8 +16,10 @@
   * `box_subs_authorised` — a successful box ⇒ every sub-tx passed verifySigs in its own pre-state (induction).
   * `plain_surplus_signature_accepted` — REFUTES "repeating a signature makes the tx ineffective" for plain accounts
       (only the first recovered signer is looked at); the consequence is C04's finding c04/replayed/surplus-signature.
-  * Not covered by the theorems: EVM and asset tx kinds (`.other` in the model: the same `verifySigs` gate in the code,
-      exercised by the two-node scenario only).
+  * EVM and asset tx kinds are `.other` in THIS model; that they pass the same `verifySigs` gate is
+      LemoProofs.C06Gate (regenerated gate table + `every_type_effect_implies_authorised` for arbitrary handlers) and the
+      all-type engine cases of harness/hx/c06_engine.go.  `verifyTempAddress` bytewise and "set once": LemoProofs.C06Temp
+      (the `tempOk` of a setsigners line is computed by the driver from the two addresses, LemoModel.TempAddr).
 -/
 import LemoModel.Ledger
 import LemoModel.HashFacts
